@@ -54,11 +54,37 @@ available, a `recv` that is (re-)polled completes — `Ready` with one more mess
 subsequently issued recv completes". -/
 theorem C06_progress (ops : List Op) :
     let s := ops.foldl step {}
-    (s.pc = .idle ∨ s.pc = .parked) → Avail s →
+    (s.pc = .idle ∨ s.pc = .parked) → Avail s → s.exhausted = false →
       ∃ n, n ≤ 3 * s.heap.length ∧
         (recvN n (step s .pollStart)).pc = .idle ∧
         (recvN n (step s .pollStart)).out.length = s.out.length + 1 :=
-  fun hpc hav => progress _ (reachable_inv ops) hpc hav
+  fun hpc hav hex => progress _ (reachable_inv ops) hpc hav hex
+
+/-- No spin (finding D17): the executor's cooperative budget can run out in the middle of a
+`poll_next` call (`Op.exhaust`, any time); from then on every stream poll returns `Pending`
+AND has already woken itself.  A stream so polled is on the `seen` list with its event queued
+again (`C06_exhausted_poll`), and when the next event popped belongs to a stream on that list the
+receiver does not poll it again: it keeps every event, wakes its own waker and returns `Pending`
+(`C06_no_spin`) — the call ends, the executor runs, the budget is refreshed (`exhausted` is reset
+by the return), and `C06_progress` applies to the re-poll. -/
+theorem C06_no_spin (ops : List Op) (t k : Nat) (rest : List (Nat × Nat)) :
+    let s := ops.foldl step {}
+    s.pc = .a → popMin s.heap = some ((t, k), rest) → s.seen.contains k = true →
+      (step s .recvStep).pc = .parked ∧ (step s .recvStep).notified = true ∧
+      (step s .recvStep).wakes = s.wakes + 1 ∧ (step s .recvStep).heap = s.heap ∧
+      (step s .recvStep).exhausted = false := by
+  intro s hpc hpop hseen
+  have h := no_spin s t k rest hpc hpop hseen
+  refine ⟨h.1, h.2.1, h.2.2.1, h.2.2.2, ?_⟩
+  have hmem : k ∈ s.seen := by simpa using hseen
+  simp [step, doRecv, hpc, doA, hpop, hmem, yieldNow]
+
+theorem C06_exhausted_poll (ops : List Op) (t k : Nat) :
+    let s := ops.foldl step {}
+    s.pc = .b t k → s.exhausted = true →
+      let s2 := step (step s .recvStep) .recvStep
+      s2.pc = .a ∧ s2.seen = k :: s.seen ∧ s2.heap = (t, k) :: s.heap :=
+  fun hpc hex => exhausted_poll_is_seen _ t k hpc hex
 
 /-- Bounded bypass: once peer `i` is owed a delivery (registered, with a complete message not
 yet handed over), then along ANY continuation of the schedule and until `i` is served (or
@@ -72,6 +98,13 @@ theorem C06_fair (pre ops : List Op) (i j : Nat) (hij : i ≠ j)
 example : owed ([Op.insert 1, .arrive 1 7].foldl step {}) 1 := by
   refine ⟨Or.inl (by decide), Or.inl (by decide)⟩
 example : Avail ([Op.insert 1, .arrive 1 7].foldl step {}) := ⟨1, by decide, by decide⟩
+/-- non-vacuity of `C06_no_spin`: one peer with data, budget exhausted before the stream is polled:
+the call ends parked, notified, with the event still queued — and the re-poll delivers -/
+example : let s := [Op.insert 1, .arrive 1 7, .pollStart, .recvStep, .exhaust, .recvStep, .recvStep].foldl step {}
+    s.pc = .a ∧ s.seen.contains 1 = true ∧ popMin s.heap = some ((0, 1), []) := by decide
+example : let s := [Op.insert 1, .arrive 1 7, .pollStart, .recvStep, .exhaust, .recvStep, .recvStep, .recvStep,
+                    .pollStart, .recvStep, .recvStep, .recvStep].foldl step {}
+    s.pc = .idle ∧ s.out = [(1, 7)] := by decide
 /-- non-vacuity of the parked hypothesis: `insert 1; poll` parks un-notified -/
 example : let s := [Op.insert 1, .pollStart, .recvStep, .recvStep, .recvStep, .recvStep].foldl step {}
     s.pc = .parked ∧ s.notified = false := by decide
